@@ -11,6 +11,7 @@ import (
 	"os"
 	"sort"
 	"strings"
+	"sync/atomic"
 	"time"
 
 	"github.com/codenotary/immudb/embedded/logger"
@@ -684,8 +685,205 @@ func sweepModelAt(mm *model, maxTs uint64) string {
 	return s
 }
 
+// ---------- deep trees: sequences that start from a non-initial state ----------
+//
+// A tree of deepN keys (several inner levels with the minimal node size, a node log spanning many files) is built
+// and flushed first; then every sequence over deepOps up to a depth; after every operation the light oracle:
+// Ts, Get of every key, full ascending and descending reader scans (= the reference map).
+const deepN = 40
+
+var deepOps = []string{"ins(p07,y)", "ins(q,n)", "flush", "flushWith(100,sync)", "flushWith(50,sync)", "flushWith(50)", "compact", "reopen"}
+
+func deepKey(i int) string { return fmt.Sprintf("p%02d", i) }
+
+func runDeep(cf cfg, path []int) (stop bool) {
+	dir := lib.Scratch("c10d")
+	defer os.RemoveAll(dir)
+	t, err := tbtree.Open(dir, opts(cf))
+	if err != nil {
+		panic(err)
+	}
+	defer func() { t.Close() }()
+	type cell struct {
+		v  string
+		ts uint64
+		n  int
+	}
+	m := map[string]*cell{}
+	var ts uint64
+	hist := map[uint64]map[string]cell{} // reference at every logical time (a restart after Compact loads the state at the compaction ts)
+	var compactedAt uint64
+	put := func(k, v string) error {
+		if err := t.Insert([]byte(k), []byte(v)); err != nil {
+			return err
+		}
+		ts++
+		if m[k] == nil {
+			m[k] = &cell{}
+		}
+		m[k].v, m[k].ts, m[k].n = v, ts, m[k].n+1
+		cp := map[string]cell{}
+		for key, x := range m {
+			cp[key] = *x
+		}
+		hist[ts] = cp
+		return nil
+	}
+	for i := 0; i < deepN; i++ {
+		if err := put(deepKey(i), "x"); err != nil {
+			panic(err)
+		}
+	}
+	if _, _, err := t.Flush(); err != nil {
+		panic(err)
+	}
+	names := func(k int) []string {
+		var s []string
+		for _, o := range path[:k+1] {
+			s = append(s, deepOps[o])
+		}
+		return s
+	}
+	for k, op := range path {
+		fail := func(what, detail string) {
+			c.Violate(lib.Violation{Sig: fmt.Sprintf("deep-%s ops=%v cfg={%s} prefilled=%d", what, names(k), cf, deepN), Detail: detail, Replay: map[string]any{"cfg": cf, "deep": path[:k+1]}})
+			stop = true
+		}
+		var err error
+		switch op {
+		case 0:
+			err = put(deepKey(7), "y")
+		case 1:
+			err = put("q", "n")
+		case 2:
+			_, _, err = t.Flush()
+		case 3:
+			_, _, err = t.FlushWith(100, true)
+		case 4:
+			_, _, err = t.FlushWith(50, true)
+		case 5:
+			_, _, err = t.FlushWith(50, false)
+		case 6:
+			var cts uint64
+			if cts, err = t.Compact(); err == nil {
+				compactedAt = cts
+			} else if errors.Is(err, tbtree.ErrCompactionThresholdNotReached) || strings.Contains(err.Error(), "already exists") {
+				err = nil
+			}
+		case 7:
+			if err = t.Close(); err == nil {
+				t, err = tbtree.Open(dir, opts(cf))
+				if err != nil {
+					panic(fmt.Sprintf("reopen: %v (ops %v)", err, names(k)))
+				}
+				if compactedAt != 0 {
+					m = map[string]*cell{}
+					for key, x := range hist[compactedAt] {
+						x := x
+						m[key] = &x
+					}
+					ts = compactedAt
+				}
+				compactedAt = 0
+			}
+		}
+		if err != nil {
+			fail("op-failed", fmt.Sprintf("%s: %v", deepOps[op], err))
+			return
+		}
+		if got := t.Ts(); got != ts {
+			fail("ts", fmt.Sprintf("Ts()=%d want %d", got, ts))
+			return
+		}
+		ss, err := t.SyncSnapshot()
+		if err != nil {
+			fail("syncsnapshot", err.Error())
+			return
+		}
+		var ks []string
+		for key := range m {
+			ks = append(ks, key)
+		}
+		sort.Strings(ks)
+		for _, key := range ks {
+			v, vts, hc, err := ss.Get([]byte(key))
+			if w := m[key]; err != nil || string(v) != w.v || vts != w.ts || int(hc) != w.n {
+				ss.Close()
+				fail("get", fmt.Sprintf("Get(%s) = %q@%d#%d %v, want %q@%d#%d", key, v, vts, hc, err, w.v, w.ts, w.n))
+				return
+			}
+		}
+		for _, desc := range []bool{false, true} {
+			r, err := ss.NewReader(tbtree.ReaderSpec{DescOrder: desc})
+			if err != nil {
+				ss.Close()
+				fail("reader", err.Error())
+				return
+			}
+			var got []string
+			for {
+				key, _, _, _, err := r.Read()
+				if err != nil {
+					if !errors.Is(err, tbtree.ErrNoMoreEntries) {
+						got = append(got, "ERR:"+err.Error())
+					}
+					break
+				}
+				got = append(got, string(key))
+			}
+			r.Close()
+			want := append([]string{}, ks...)
+			if desc {
+				sort.Sort(sort.Reverse(sort.StringSlice(want)))
+			}
+			if fmt.Sprint(got) != fmt.Sprint(want) {
+				ss.Close()
+				fail("scan", fmt.Sprintf("reader desc=%v returned %v, want %v", desc, got, want))
+				return
+			}
+		}
+		ss.Close()
+	}
+	return
+}
+
+// deepPass: iterative deepening over deepOps on the prefilled tree, for two configurations.
+func deepPass(maxDepth int) {
+	leafMin := 2*(29+4) + 10
+	for _, cf := range []cfg{{leafMin, 1 << 10, 1 << 20, 256, 1 << 20, true}, {leafMin, 1, 1 << 20, 128, 1 << 20, true}} {
+		for d := 1; d <= maxDepth; d++ {
+			n := 1
+			for i := 0; i < d; i++ {
+				n *= len(deepOps)
+			}
+			var done atomic.Int64
+			c.ParallelFor(n, func(i int) {
+				if c.Expired() {
+					return
+				}
+				path := make([]int, d)
+				for k, x := d-1, i; k >= 0; k-- {
+					path[k] = x % len(deepOps)
+					x /= len(deepOps)
+				}
+				if p := lib.Catch(func() { runDeep(cf, path) }); p != "" {
+					c.Violate(lib.Violation{Sig: fmt.Sprintf("deep-panic cfg={%s} path=%v", cf, path), Detail: p, Replay: map[string]any{"cfg": cf, "deep": path}})
+				}
+				done.Add(1)
+				c.Eval(fmt.Sprintf("deep|%s|%v", cf, path))
+				c.AddStates(1, int64(d))
+			})
+			if int(done.Load()) < n {
+				c.CapHit(fmt.Sprintf("deep-tree pass: time budget reached at depth %d (cfg %s)", d, cf))
+				return
+			}
+			c.Set(fmt.Sprintf("deep_tree_depth_completed_node%d_cache%d", cf.NodeSize, cf.CacheSize), d)
+		}
+	}
+}
+
 func main() {
-	c = lib.New("C10", "model_checking", 100*time.Second, 25*time.Minute)
+	c = lib.New("C10", "model_checking", 130*time.Second, 25*time.Minute)
 	c.Assume("sequential use of the tree API (concurrent snapshot readers are covered by the scheduler harnesses of C04/C05)")
 	c.Assume("Reader offset combined with IncludeHistory is not swept: the property does not define whether the offset counts keys or versions")
 	leafMin := 2*(29+4) + 10
@@ -719,6 +917,16 @@ func main() {
 			Path []int `json:"path"`
 		}
 		c.LoadReplay(&r)
+		var rd struct {
+			Deep []int `json:"deep"`
+		}
+		c.LoadReplay(&rd)
+		if len(rd.Deep) > 0 {
+			runDeep(r.Cfg, rd.Deep)
+			c.AddEvals(1)
+			c.AddStates(1, 1)
+			c.Finish("replay of one recorded deep-tree sequence", false)
+		}
 		run(r.Cfg, r.Path, len(r.Path))
 		c.AddEvals(1)
 		c.AddStates(1, 1)
@@ -743,6 +951,13 @@ func main() {
 			}
 		}
 	}
+	// deep trees (sequences from a non-initial state), first: the pass is short
+	deepDepth := 4
+	if c.Thorough() {
+		deepDepth = 5
+	}
+	deepPass(deepDepth)
+	c.Set("deep_tree_alphabet", strings.Join(deepOps, ", "))
 	runLevels(2, 3)
 	// deep pass over a core alphabet (version-list copy-on-write, snapshot pinning and timestamp advances need
 	// longer sequences than the full alphabet allows): 8 operations, two configurations
@@ -777,5 +992,5 @@ func main() {
 	c.Set("core_depth_completed_per_configuration", coreDone)
 	c.Set("depth_target", maxDepth)
 	_ = bytes.Equal
-	c.Finish("every sequence over the 17-operation alphabet up to depth_completed for every configuration; after each step the live tree and every open snapshot are swept (Get, GetBetween over all windows, History over offsets/limits/directions, GetWithPrefix, every reader spec of the grid, ReadBetween over all windows) and compared with the reference multi-version map; snapshots must equal a state of the tree no older than requested and never change afterwards", !c.Expired())
+	c.Finish("every sequence over the 17-operation alphabet up to depth_completed for every configuration; after each step the live tree and every open snapshot are swept (Get, GetBetween over all windows, History over offsets/limits/directions, GetWithPrefix, every reader spec of the grid, ReadBetween over all windows) and compared with the reference multi-version map; snapshots must equal a state of the tree no older than requested and never change afterwards. Deep-tree pass: every sequence over deep_tree_alphabet up to the depth completed, starting from a flushed tree of 40 keys (several inner levels, node log over many files), Ts / Get of every key / full scans after every step", !c.Expired())
 }
